@@ -25,6 +25,14 @@ def mk_side(ctx, n, tag, idkey, keynames, payload, bare=False):
         items.append(it)
     return items
 
+def same_entries(a, b, label):
+    """dict a (result) has the entries of dict b (expected); the order of keys is not part of the statement"""
+    cl = [(f"{label}: same set of keys", T(set(a) == set(b)))]
+    if set(a) == set(b):
+        for k in b:
+            cl.append((f"{label}: value of {k!r}", v_ident(a[k], b[k]) if k not in ("ida", "idb") else T(a[k] == b[k])))
+    return cl
+
 class LodJoin(Harness):
     prop = "C16"; opname = "lod_join"
     def __init__(self, kind, nkeys, na, nb, renamed=False):
@@ -86,6 +94,13 @@ class LodJoin(Harness):
                 cl.append((f"result item {n_} has no helper keys", T("_aid_" not in r and "_bid_" not in r)))
                 if i is not None and j is not None:
                     cl.append((f"result item {n_} never merges items with unequal keys", match(i, j)))
+                if i is None and j is not None and isinstance(j, int) and 0 <= j < len(B):
+                    # a right item without a partner: the item itself, its key values under the join's (left) key names
+                    exp = {k: v for k, v in B[j].items() if k not in by2}
+                    exp.update({k1: B[j][k2] for k1, k2 in zip(by1, by2) if k2 in B[j]})
+                    cl.extend(same_entries(r, exp, f"result item {n_} (right item {j} alone, keyed by the left key names)"))
+                if j is None and i is not None and isinstance(i, int) and 0 <= i < len(A):
+                    cl.extend(same_entries(r, A[i], f"result item {n_} (left item {i} alone)"))
         # the right-hand argument is never modified
         cl.append(("right-hand list unchanged", T(len(out["b_after"]) == len(B))))
         for x, y in zip(out["b_after"], B):
